@@ -55,6 +55,9 @@ inductive Expr where
   | fn (ps : List Name) (body : Expr)       -- `function($p1, ...) { body }`
   | call0 (f : Expr)                        -- `f()`
   | call (f args : Expr)                    -- `f(args)`  (arguments = the `,` spine of `args`)
+  | durLit (s : Int)                        -- `xs:dayTimeDuration('...')`
+  | adjust1 (e : Expr)                      -- `adjust-dateTime-to-timezone(e)`       (implicit timezone)
+  | adjust2 (e z : Expr)                    -- `adjust-dateTime-to-timezone(e, z)`    (`z` a duration or `()`)
   deriving Repr, DecidableEq, Inhabited
 
 inductive Item where
@@ -81,16 +84,22 @@ structure Quirks where
   callCopies : Bool
   /-- F05b repaired: `get_operands` sets the implicit timezone on `copy(op)` -/
   operandCopied : Bool
+  /-- `adjust_datetime` (xpath_tokens/base.py:708-762) works on `copy(item)` — true on every real
+  tree; `false` is the seeded change "`_item = item`", kept so that the heap theorem has content -/
+  adjustCopied : Bool
   /-- F05c repaired (branch fix-c05c): the callee's dict is a copy of the closure variables, the
   caller's variables are not visible in the body -/
   calleeLexical : Bool
   deriving Repr, DecidableEq
 
 /-- branch fix-c05 (F05, F16, F05b repaired; dynamic scope of function bodies = finding F05c) -/
-def Quirks.fixed : Quirks := ⟨true, true, false⟩
+def Quirks.fixed : Quirks := ⟨true, true, true, false⟩
 /-- branch fix-c05c (F05c repaired as well) -/
-def Quirks.lexical : Quirks := ⟨true, true, true⟩
-def Quirks.pinned : Quirks := ⟨false, false, false⟩
+def Quirks.lexical : Quirks := ⟨true, true, true, true⟩
+def Quirks.pinned : Quirks := ⟨false, false, true, false⟩
+
+/-- no evaluation writes into a caller's object -/
+def Quirks.heapSafe (q : Quirks) : Bool := q.operandCopied && q.adjustCopied
 
 structure Cfg where
   q : Quirks
@@ -140,6 +149,36 @@ def subItems (c : Cfg) (h : Heap) (x y : Item) : Option (Item × Heap) :=
     match c.q.operandCopied, c.tz, deref h x, deref h y with
     | false, some z, some _, some _ => some (r, stampTz z (stampTz z h x) y)
     | _, _, _, _ => some (r, h)
+
+/-- `Timezone.fromduration`: whole minutes within ±14:00 (else FODT0003) -/
+def tzOfDur (s : Int) : Option Int :=
+  if s % 60 == 0 && -50400 ≤ s && s ≤ 50400 then some (s / 60) else none
+
+/-- the adjusted value (F&O 3.1 §9.6): both timezones present → same instant, new local time;
+otherwise the local time is kept and the timezone replaced (or removed) -/
+def adjustPure (d : Int × Option Int) (target : Option Int) : Int × Option Int :=
+  match d.2, target with
+  | some zo, some zn => (d.1 - 60 * zo + 60 * zn, some zn)
+  | _, _ => (d.1, target)
+
+/-- `adjust_datetime` on one item: result and the heap afterwards.  With `adjustCopied = false`
+(`_item = item`) and no offset arithmetic (`_item += …` builds a new object) the timezone is written
+into the caller's object, which is also what is returned. -/
+def adjustItem (c : Cfg) (h : Heap) (x : Item) (target : Option Int) : Option (Item × Heap) :=
+  match deref h x with
+  | none => none
+  | some d =>
+    let r := adjustPure d target
+    match c.q.adjustCopied, x, d.2, target with
+    | false, .dtref _, some _, some _ => some (.dtv r.1 r.2, h)
+    | false, .dtref k, _, _ => some (.dtref k, h.set k r)
+    | _, _, _, _ => some (.dtv r.1 r.2, h)
+
+/-- the `$timezone` argument: `()` → no timezone, one duration → `Timezone.fromduration` -/
+def targetOf : Val → Except Err (Option Int)
+  | [] => .ok none
+  | [.dur s] => match tzOfDur s with | some z => .ok (some z) | none => .error .type
+  | _ => .error .type
 
 /-- `boolean_value` on a materialised sequence without nodes -/
 def ebv : Val → Except Err Bool
@@ -350,6 +389,33 @@ def eval (c : Cfg) : Nat → Expr → Env → Heap → Res
         | .error e => .error e
         | .ok (vs, ρ2, h2) => applyFn (eval c n) c ps body cap vs ρ2 h2
       | .ok _ => .error .type
+    | .durLit s => .ok ([.dur s], ρ, h)
+    | .adjust1 e =>
+      match eval c n e ρ h with
+      | .error e => .error e
+      | .ok ([], ρ1, h1) => .ok ([], ρ1, h1)
+      | .ok ([x], ρ1, h1) =>
+        match adjustItem c h1 x c.tz with
+        | some (r, h2) => .ok ([r], ρ1, h2)
+        | none => .error .type
+      | .ok _ => .error .type
+    | .adjust2 e z =>
+      match eval c n e ρ h with
+      | .error e => .error e
+      | .ok (v, ρ1, h1) =>
+        if v.length > 1 then .error .type else
+        match eval c n z ρ1 h1 with
+        | .error e => .error e
+        | .ok (vz, ρ2, h2) =>
+          match targetOf vz with
+          | .error e => .error e
+          | .ok target =>
+            match v with
+            | [x] =>
+              match adjustItem c h2 x target with
+              | some (r, h3) => .ok ([r], ρ2, h3)
+              | none => .error .type
+            | _ => .ok ([], ρ2, h2)
 
 /-! ### observations (what the caller can print) -/
 
